@@ -32,7 +32,7 @@ def run(tier, seed, replay):
     rep.rule = ("every callback program up to length %d over 31 operations on the handed jwt_t (typed gets with right and wrong types, gets of absent names, JSON gets, jwt_get_alg; delete/replace exp, nbf, iss, sub, aud, all claims, incl. replacements that keep the serialised length; header members crit/typ/kid/cty/jwk/x5c; "
                 "delete/replace the alg header, all headers) x 32 claim policies x 29 tokens (passing, failing exactly one check or the "
                 "signature; HS256, ES256, unsigned; empty payloads; payloads of 4-70 KiB whose checked claims lie beyond the first 4/64 KiB) x provider is compared with the callback-free twin at a fixed clock; every 7th program "
-                "also returns non-zero (positive and negative values) and must fail; callback-selected key/alg cells of the policy matrix "
+                "also returns non-zero (positive and negative values) and must fail; a third of the cells verify the same token a second time on the same checker; callback-selected key/alg cells of the policy matrix "
                 "are compared with the same cell configured through setkey. distinct = distinct (program, token, outcome) among logged + "
                 "matrix cells compared" % L)
     rep.assumptions = ["the callback-free twin is the oracle", "ES256 tokens are run under a quarter of the policies per program (cost)"]
@@ -41,7 +41,7 @@ def run(tier, seed, replay):
     outs, crashes = vf.run_shards(b, ["--n", L, "--seed", seed], vf.NCPU, rd, timeout=3400)
     rep.crash_violations(crashes)
     events = []
-    tot = [0, 0, 0, 0, 0]
+    tot = [0, 0, 0, 0, 0, 0]
     for ev in vf.read_jsonl([]):
         pass
     for p in outs:
@@ -51,10 +51,10 @@ def run(tier, seed, replay):
                     events.append(json.loads(line))
                 elif line.startswith('["STATS"'):
                     s = json.loads(line)
-                    for i in range(5):
+                    for i in range(min(6, len(s) - 1)):
                         tot[i] += s[1 + i]
     rep.evaluations += tot[0]
-    rep.count("pairs_compared", tot[0]); rep.count("baseline_accepts", tot[2]); rep.count("baseline_rejects", tot[3]); rep.count("nonzero_callback_cases", tot[4])
+    rep.count("pairs_compared", tot[0]); rep.count("baseline_accepts", tot[2]); rep.count("baseline_rejects", tot[3]); rep.count("nonzero_callback_cases", tot[4]); rep.count("second_verifications_on_the_same_checker", tot[5])
     single = set()
     mism = [e for e in events if (e[7] and e[5] == 0) or (not e[7] and (e[5] == 0) != (e[6] == 0))]
     for e in mism:
